@@ -344,6 +344,48 @@ func c37TextTopics(text string) (topics []string, ok bool, set bool) {
 	return topics, true, false
 }
 
+// c37MetadataQueryDenied: if text parses (with the upstream's parser) as EXPLAIN / SHOW PARTITIONS /
+// DESCRIBE, the statement kind and the referenced topics the reference ACL does not allow.
+func c37MetadataQueryDenied(allow, deny []string, text string) (kind string, denied []string) {
+	trimmed := strings.TrimSpace(strings.TrimSuffix(strings.TrimSpace(text), ";"))
+	var parsed kafsql.Query
+	var err error
+	func() {
+		defer func() {
+			if r := recover(); r != nil {
+				err = fmt.Errorf("parser panic: %v", r)
+			}
+		}()
+		parsed, err = kafsql.Parse(trimmed)
+	}()
+	if err != nil {
+		return "", nil
+	}
+	switch parsed.Type {
+	case kafsql.QueryExplain:
+		kind = "explain"
+	case kafsql.QueryShowPartitions:
+		kind = "show-partitions"
+	case kafsql.QueryDescribe:
+		kind = "describe"
+	default:
+		return "", nil
+	}
+	topics, ok, _ := c37TextTopics(text)
+	if !ok {
+		return "", nil
+	}
+	for _, t := range topics {
+		if !c37RefAllows(allow, deny, t) {
+			denied = append(denied, t)
+		}
+	}
+	if len(denied) == 0 {
+		return "", nil
+	}
+	return kind, denied
+}
+
 // c37RefDecision: would a proxy that authorises exactly `text` let it through?
 func c37RefDecision(allow, deny []string, text string) bool {
 	topics, ok, set := c37TextTopics(text)
@@ -661,6 +703,15 @@ func c37Judge(up *c37Upstream, c c37Case, obs []c37Obs) (sig string, nontrivial 
 				viols = append(viols, c37Viol{Key: "cached-decision-reused-for-different-text", Case: one,
 					Detail: fmt.Sprintf("ACL allow=%q deny=%q: %q is denied alone but forwarded after %q (same decision-cache key) [%s]", c.Allow, c.Deny, c37Short(f), c37Short(cachedTwin), c.Label)})
 				state += "+authorized-on-cached-twin"
+			case !fullOK:
+				// EXPLAIN / SHOW PARTITIONS / DESCRIBE answer with facts about the named topics (segment counts
+				// and sizes, partitions): the upstream "reads" them without downloading a segment, so for these
+				// statement types the topics are taken from the upstream's own parser on the forwarded text
+				if kind, denied := c37MetadataQueryDenied(c.Allow, c.Deny, f); kind != "" {
+					viols = append(viols, c37Viol{Key: "metadata-query-forwarded-for-denied-topic:" + kind, Case: one,
+						Detail: fmt.Sprintf("ACL allow=%q deny=%q: forwarded %q, a %s whose topics %q are not allowed (the upstream answered with %d rows / error %q) [%s]", c.Allow, c.Deny, c37Short(f), kind, denied, o.Rows, o.ClientErr, c.Label)})
+					state += "+metadata-of-denied-topic"
+				}
 			}
 			if f != q {
 				state += "+rewritten"
@@ -703,7 +754,7 @@ func TestVerifC37(t *testing.T) {
 	rep.Rule = "case = (ACL, decision cache on/off, session of 1-2 query texts) run client -> real proxy handleConn -> recording tee -> real upstream server -> loopback S3. Texts = 17 templates x topics {ok,secret,okx} x (no padding | space padding after each part so that the next part starts at byte 500/511/512/513/600 | a long column list before FROM). Outcome signature = per query forwarded/denied + topics whose segments the upstream downloaded + oracle flags, with the template/padding label. Non-trivial = the proxy denied the query, or forwarded it and the upstream downloaded >= 1 segment."
 	rep.Assumptions = []string{
 		"topics read = topics whose segment objects (.kfs) the upstream fetched in full (decoding); the footer probes and listing that discovery performs on every topic for every query are not reads",
-		"EXPLAIN output (segment counts/bytes of the named topics) is not counted as reading a topic under O1; it is covered by O2 only when the text was authorised on its truncation",
+		"EXPLAIN / SHOW PARTITIONS / DESCRIBE download no segment but answer with facts about the named topics: for these statement types the topics read are the ones the upstream's own parser finds in the forwarded text",
 		"reference ACL: deny wins; empty allow list allows every topic that is not denied; patterns are exact names, '*' and globs",
 		"over-denial (the proxy refusing a text it could have forwarded) is not a violation of this property",
 	}
